@@ -56,3 +56,39 @@ func ReplayAny(path, binDir string) (*ReplayFile, *ReplayResult, error) {
 	}
 	return Replay(path)
 }
+
+// OtherDumps lets the codec and cli engines provide a per-run trace dump.
+var OtherDumps = map[string]func(verifSeed uint64, prop string, n int64, binDir string) string{}
+
+// TraceDump executes run indices 0..n-1 of an engine and prints one trace hash per
+// executed run; used by the determinism self-test, which diffs the dumps of many
+// processes started with the same seed.
+func TraceDump(prop, engine string, verifSeed uint64, n int64, schedules int, binDir string) string {
+	if f, ok := OtherDumps[engine]; ok {
+		return f(verifSeed, prop, n, binDir)
+	}
+	var sb strings.Builder
+	for i := int64(0); i < n; i++ {
+		seed := RunSeed(verifSeed, prop, i)
+		target := pickTarget(prop, seed)
+		switch engine {
+		case "hist":
+			sc, _ := GenHist(seed, prop, target)
+			r := Run(sc)
+			fmt.Fprintf(&sb, "%d %016x v=%d steps=%d\n", i, r.TraceHash, len(r.Violations), r.Stats.Steps)
+		case "conc":
+			base, _ := GenConc(seed, prop, target)
+			seq := base.Clone()
+			seq.Cfg.Sched = 0
+			r0 := Run(seq)
+			fmt.Fprintf(&sb, "%d seq %016x v=%d\n", i, r0.TraceHash, len(r0.Violations))
+			for k := 0; k < schedules; k++ {
+				s := base.Clone()
+				ApplyStrategy(s, uint64(k), r0.Stats.Yields)
+				r := Run(s)
+				fmt.Fprintf(&sb, "%d s%d %016x v=%d sw=%d\n", i, k, r.TraceHash, len(r.Violations), r.Stats.Switches)
+			}
+		}
+	}
+	return sb.String()
+}
